@@ -19,7 +19,7 @@ int read_bin(const char *filename, Memory *memory, uint32_t start_address)
 {
   FILE *in;
   int ch;
-  uint32_t address = start_address;
+  uint64_t address = start_address;
 
   memory->clear();
 
@@ -35,13 +35,25 @@ int read_bin(const char *filename, Memory *memory, uint32_t start_address)
     ch = getc(in);
     if (ch == EOF) break;
 
+    if (address > 0xffffffff)
+    {
+      // The image would wrap around to address 0.
+      printf("Error: %s does not fit below address 0xffffffff.\n", filename);
+      fclose(in);
+      return -1;
+    }
+
     memory->write8(address++, ch);
   }
 
   fclose(in);
 
-  memory->low_address = start_address;
-  memory->high_address = address - 1;
+  // An empty file leaves the memory empty (low_address > high_address).
+  if (address != start_address)
+  {
+    memory->low_address = start_address;
+    memory->high_address = address - 1;
+  }
 
   return 0;
 }
